@@ -137,12 +137,21 @@ let predict (c : string) (obs : string) : string * string * bool =
       let iters = num () in
       let n = num () in
       let pp_codes = ref [] in
+      let wires = ref [] in
       let steps = List.init n (fun _ ->
-        let _beh = next () in
+        let beh = next () in
         let conn = conn_of (next ()) in
         let status = z_of_int (num ()) in
-        let bodyok = bool_of_field (next ()) in
+        let bodyok_claimed = bool_of_field (next ()) in
         let body_f = next () in
+        (* announced sizes: the wire of Model/RobustWire.v; whether the read succeeds is the MODEL's answer (body_complete) *)
+        let body_len = if body_f = "-" then 0 else if body_f.[0] = '@' then int_of_string (String.sub body_f 1 (String.length body_f - 1)) else String.length body_f / 2 in
+        let wire = (match String.split_on_char ':' beh with
+          | ["lielen"; v] | ["h2lie"; v] -> Some { bw_announced = Some (z_of_string v); bw_arrives = z_of_int body_len; bw_clean_end = false }
+          | ["chunksz"; _] -> Some { bw_announced = None; bw_arrives = z_of_int body_len; bw_clean_end = false }
+          | _ -> None) in
+        let bodyok = (match wire with Some w -> body_complete w | None -> bodyok_claimed) in
+        wires := !wires @ [wire];
         let tok = strn () in
         let pp = next () in
         let tmpl = next () in
@@ -167,7 +176,17 @@ let predict (c : string) (obs : string) : string * string * bool =
               extract_elem ix (z_of_int (int_of_string len)) (z_of_int 0) (z_of_int 0)
           | _ -> Done ()) in
         { si_opts = opts; si_pre = pre_o; si_tmpl_ok = (tmpl <> "e"); si_prep_ok = (tmpl <> "u0"); si_resp = resp; si_pps = pps }) in
+      (* the wire-level step / shot with the memory this machine certainly has (1 GiB): by C19_step_wire_refines it is the
+         abstract step with rs_body_ok = body_complete; anything else would be a panic / death the model predicts *)
+      let mem = z_of_string "1073741824" in
+      let base_c = { bc_bound = true; bc_connect = None; bc_http2 = h2gun; bc_opts = opts } in
+      let wire_bad = List.exists2 (fun s w -> match w with
+        | None -> false
+        | Some w ->
+            if gun = "scenario" then (match shoot_step_wire mem s w with WStep o -> o <> shoot_step s | WStepCrash -> true)
+            else (match base_shoot_wire mem base_c false s.si_resp w with WShot o -> o <> base_shoot base_c false s.si_resp | WCrash -> true)) steps !wires in
       let shots =
+        if wire_bad then [ShotPanic []] else
         if gun = "http" || gun = "connect" || h2gun then
           List.map (fun s -> base_shoot { bc_bound = true; bc_connect = None; bc_http2 = h2gun; bc_opts = opts } false s.si_resp) steps
         else List.init iters (fun _ -> scenario_shoot true steps) in
